@@ -68,6 +68,8 @@ def run(F, R, tier):
             ok, _, _ = body.must_pass_success(CDID + "::check_validity", [bi])
         r1.site("CoreDID(..) constructed in %s under check_validity: %s" % (L.short(base), ok))
         r1.require(ok, (base, "core-gate"), "the CoreDID underlying every IotaDID is constructed in %s without check_validity: an IotaDID could carry a path, query or fragment" % L.short(base))
+    import c10
+    c10.check_validity_guards(F, r1)
     # ref-cast users
     for (p, bi, t) in F.callers(ID + "::from_inner_ref_unchecked"):
         r1.site("ref-cast &CoreDID → &IotaDID in %s" % L.short(p), t["sp"])
@@ -97,7 +99,7 @@ def run(F, R, tier):
         r1.fail((base, "id-not-normalised"),
                 "%s builds an IotaDocument whose id is only checked with check_validity (which accepts `did:iota:iota:0x…` and upper-case hex) and never normalised; IotaDocument::id() ref-casts it to &IotaDID, so doc.id() != IotaDID::parse(same string) although network and tag agree" % L.short(base),
                 hh["value"]["sp"])
-    r1.floor(16)
+    r1.floor(17)
 
     # ------------------------------------------------------------------ R2 validity predicates and normal form
     r2 = R.rule("C17-R2", "T4+T7", "check_validity = method == \"iota\" ∧ tag is 32 hex-encoded bytes ∧ network name 1..=6 lowercase alphanumerics; normalize drops exactly the default network; components split at the first ':'")
